@@ -50,6 +50,15 @@ def _facts_flow(func, cfg):
                     out.add(pv[0])
             if n.get("kind") == "VarDecl" and "memory_page_node" in n.get("type", {}).get("qualType", ""):
                 out.add(n.get("id"))
+            # pointer arithmetic on the page pointer (mpn++, mpn += 1): it no longer designates the page that was tested
+            if n.get("kind") == "UnaryOperator" and n.get("opcode") in ("++", "--"):
+                pv = _page_var(n["inner"][0])
+                if pv:
+                    out.add(pv[0])
+            if n.get("kind") == "CompoundAssignOperator":
+                pv = _page_var(n["inner"][0])
+                if pv:
+                    out.add(pv[0])
         return out
 
     def flow(nd, st):
@@ -119,24 +128,9 @@ def _closure(tu, roots):
 PRELOAD_C = ['miasm/jitter/vm_mngr.c', 'miasm/jitter/vm_mngr_py.c', 'miasm/jitter/JitCore.c']
 
 
-def run(ck):
-    tu = cast.load(ck.repo, VMC)
-    PR, PW = tu.macro_int("PAGE_READ"), tu.macro_int("PAGE_WRITE")
-    ck.rule("R1", "every use of a page's host buffer is preceded by a NULL test and (emulated access) the permission test "
-                  "of that same page pointer on every path since it was looked up", floor=8)
-    ck.rule("R2", "no store into page memory is followed by a fallible step of the same emulated write", floor=2)
-    ck.rule("R3", "a new mapping is tested for overlap and refused before insertion; two-sided interval predicate", floor=3)
-    ck.rule("R4", "typed primitives record width/8 bytes at the accessed address before touching memory", floor=8)
-    ck.rule("R5", "memory breakpoints are matched by interval overlap against recorded reads and writes", floor=2)
-    _access_log_rules(ck, tu)
-
-    reads = sorted(n for n in tu.funcs if re.match(r"vm_MEM_LOOKUP_\d+$", n))
-    writes = sorted(n for n in tu.funcs if re.match(r"vm_MEM_WRITE_\d+$", n))
-    ck.need(len(reads) >= 4 and len(writes) >= 4, "typed primitives vm_MEM_LOOKUP_N / vm_MEM_WRITE_N not found")
-    rclo = _closure(tu, reads)
-    wclo = _closure(tu, writes)
-
-    # ------------------------------------------------------------------ R1
+def page_pointer_rules(ck, tu, RID, rclo, wclo, PR, PW):
+    """R1 (shared with C49-R5): every use of a page's host buffer is preceded, on every path since the page pointer was last
+    obtained or changed (assignment, ++, +=), by its NULL test and, in an emulated access, by the permission test."""
     for name, f in sorted(tu.funcs.items()):
         derefs = []
         for n in cast.walk(f.body):
@@ -173,13 +167,34 @@ def run(ck):
                     continue
                 loop_ctx = "loop" if cfg.can_reach(nd.id, nd.id) else "straight"
                 key = "%s:%s->ad_hp:%s" % (name, vname, loop_ctx)
-                ck.ob("R1", key + ":null", ("nn", vid) in st, VMC,
+                ck.ob(RID, key + ":null", ("nn", vid) in st, VMC,
                       "%s dereferences %s->ad_hp on a path where %s was not tested against NULL since its lookup" % (name, vname, vname))
                 if need_bit is not None:
-                    ck.ob("R1", key + ":perm", ("perm", vid, need_bit) in st, VMC,
+                    ck.ob(RID, key + ":perm", ("perm", vid, need_bit) in st, VMC,
                           "%s uses %s->ad_hp on a path where the page's %s permission was not tested since the page was "
                           "(re-)looked up: an access straddling into a page without that permission goes through"
                           % (name, vname, "PAGE_WRITE" if need_bit == PW else "PAGE_READ"))
+
+
+
+def run(ck):
+    tu = cast.load(ck.repo, VMC)
+    PR, PW = tu.macro_int("PAGE_READ"), tu.macro_int("PAGE_WRITE")
+    ck.rule("R1", "every use of a page's host buffer is preceded by a NULL test and (emulated access) the permission test "
+                  "of that same page pointer on every path since it was looked up", floor=8)
+    ck.rule("R2", "no store into page memory is followed by a fallible step of the same emulated write", floor=2)
+    ck.rule("R3", "a new mapping is tested for overlap and refused before insertion; two-sided interval predicate", floor=3)
+    ck.rule("R4", "typed primitives record width/8 bytes at the accessed address before touching memory", floor=8)
+    ck.rule("R5", "memory breakpoints are matched by interval overlap against recorded reads and writes", floor=2)
+    _access_log_rules(ck, tu)
+
+    reads = sorted(n for n in tu.funcs if re.match(r"vm_MEM_LOOKUP_\d+$", n))
+    writes = sorted(n for n in tu.funcs if re.match(r"vm_MEM_WRITE_\d+$", n))
+    ck.need(len(reads) >= 4 and len(writes) >= 4, "typed primitives vm_MEM_LOOKUP_N / vm_MEM_WRITE_N not found")
+    rclo = _closure(tu, reads)
+    wclo = _closure(tu, writes)
+
+    page_pointer_rules(ck, tu, "R1", rclo, wclo, PR, PW)
 
     # ------------------------------------------------------------------ R2
     for name in sorted(wclo):
